@@ -22,19 +22,20 @@ EXPLANATION = (LEVEL_TEXT + "dpss() is executed with the ctypes call replaced by
                "sin(2 pi W (n-m))/(pi (n-m)), W = NW/N - i.e. the fraction of the taper's energy inside |f| <= W - through the real "
                "_autocov/_crosscov/_fftconvolve helpers (FFT of size 16 / 32 = DFT definition with exact algebraic twiddles).")
 BOUNDS = {
-    "quick": "N=8 (FFT size 16), NW in {1, 2.5}, k in {1, 2}; sqrt(N) an exact algebraic number, sinc values uninterpreted",
-    "thorough": "N in {8, 9, 12} (FFT sizes 16, 32), NW in {1, 2.5, 3.5}, k <= 3; default k",
+    "quick": "N in {8, 9} (FFT sizes 16, 32), NW in {1, 2.5, 3.5}, k <= 3, default k; sqrt(N) an exact algebraic number, sinc values uninterpreted",
+    "thorough": "N in 8..13 and 16, NW in {1, 2, 2.5, 3, 3.5, 4}, k <= 4",
 }
 ASSUMPTIONS = ["floats modelled as exact reals",
-               "CONTRACT STUB for the C routine multitap: tapers arbitrary reals with sum_n t[i,n]^2 = N and sum_n t[i,n] t[j,n] = 0 (i != j); "
-               "tapsum[i] = sum_n t[i,n]; tapsum[i] != 0 for even i and t[i,0] != 0 for odd i (otherwise the sign convention is undefined)",
+               "CONTRACT STUB for the C routine multitap: tapers arbitrary reals, tapsum[i] = sum_n t[i,n]; tapsum[i] != 0 for even i and t[i,0] != 0 for odd i "
+               "(otherwise the sign convention is undefined); the clauses sum_n t[i,n]^2 = N (mydpss.c: rms 1) and sum_n t[i,n] t[j,n] = 0 (distinct eigenvectors) "
+               "are the HYPOTHESES of the unit-energy / orthogonality claims only - every other claim holds for arbitrary buffers",
                "numpy.sinc on the concrete lag grid: one uninterpreted real per lag (the identity holds for every value of the kernel entries); "
                "numpy.sqrt(N): the positive root of s^2 = N", "scipy.fftpack fft/ifft = DFT definition with exact twiddles"]
 OUTSIDE = ["everything the C routine is responsible for: that the tapers are the leading eigenvectors of the sinc kernel / agree with an independent "
            "eigen-solver, that the concentration ratios are non-increasing and inside (0, 1], that even-index tapers are symmetric and odd-index ones "
            "antisymmetric (float eigenproblem with convergence loops behind ctypes: not encodable; a counterexample is replayed through the real "
            "library, so the real C output is what a reported violation is checked against)",
-           "N not in {8, 9, 12} for the eigenvalue identity (FFT sizes other than 16 / 32)"]
+           "N > 16 (FFT sizes other than 16 / 32)"]
 BUDGET = {"quick": 900, "thorough": 3400}
 
 
@@ -78,16 +79,6 @@ def case_wrapper(h, N, NW, k, default_k=False):
     if h.is_sym():
         from symx.array import SymBuffer
         t = [[h.real('t%d_%d' % (i, n)) for n in range(N)] for i in range(k)]
-        for i in range(k):
-            acc = 0
-            for n in range(N):
-                acc = acc + t[i][n] * t[i][n]
-            h.assume(acc == N, "C contract: rms = 1")
-            for j in range(i):
-                dot = 0
-                for n in range(N):
-                    dot = dot + t[i][n] * t[j][n]
-                h.assume(dot == 0, "C contract: eigenvectors orthogonal")
         sums = []
         for i in range(k):
             sm = 0
@@ -164,15 +155,25 @@ def case_wrapper(h, N, NW, k, default_k=False):
             h.claim_eq("col%d[%d]^2 * N = t^2" % (i, n), out[n, i] * out[n, i] * N, t[i][n] * t[i][n])
             if n:
                 h.claim_eq("col%d proportional to taper %d (sample %d)" % (i, i, n), out[n, i] * t[i][0], out[0, i] * t[i][n])
-        nrm = 0
+        # orthonormal columns, each from the one clause of the C contract it rests on (the contract clause is the
+        # hypothesis of the claim; in replay the real C output is used and the conclusion is evaluated directly)
+        nrm, tn = 0, 0
         for n in range(N):
             nrm = nrm + out[n, i] * out[n, i]
-        h.claim_eq("col%d unit energy" % i, nrm, 1)
+            tn = tn + t[i][n] * t[i][n]
+        if h.is_sym():
+            h.claim_true("col%d unit energy (given rms(taper %d) = 1)" % (i, i), SymBool.any([tn != N, nrm == 1]))
+        else:
+            h.claim_eq("col%d unit energy (given rms(taper %d) = 1)" % (i, i), nrm, 1)
         for j in range(i):
-            dot = 0
+            dot, td = 0, 0
             for n in range(N):
                 dot = dot + out[n, i] * out[n, j]
-            h.claim_eq("col%d orthogonal to col%d" % (i, j), dot, 0)
+                td = td + t[i][n] * t[j][n]
+            if h.is_sym():
+                h.claim_true("col%d orthogonal to col%d (given tapers %d, %d orthogonal)" % (i, j, i, j), SymBool.any([td != 0, dot == 0]))
+            else:
+                h.claim_eq("col%d orthogonal to col%d (given tapers %d, %d orthogonal)" % (i, j, i, j), dot, 0)
         # sign convention
         if i % 2 == 0:
             sm = 0
@@ -192,12 +193,12 @@ def case_wrapper(h, N, NW, k, default_k=False):
 def cases(tier, seed):
     q = tier == 'quick'
     out = []
-    grid = [(8, 1, 1), (8, 1, 2), (8, 2.5, 2)]
+    grid = [(8, 1, 1), (8, 1, 2), (8, 2.5, 2), (8, 2.5, 3), (8, 3.5, 3), (9, 2.5, 2)]
     if not q:
-        grid += [(8, 2.5, 3), (8, 3.5, 3), (9, 2.5, 2), (12, 2.5, 2), (12, 3.5, 3)]
+        grid += [(8, 2, 4), (8, 3.5, 4), (9, 3, 3), (10, 2.5, 3), (11, 4, 3), (12, 2.5, 2), (12, 3.5, 3), (13, 3, 2), (16, 2.5, 2), (16, 4, 3)]
     for N, NW, k in grid:
         out.append(Case("wrapper:N=%d:NW=%s:k=%d" % (N, NW, k), case_wrapper, dict(N=N, NW=NW, k=k), timeout=120 if q else 600,
-                        max_paths=16, feas_timeout=5, wall=600 if q else 2400, max_decisions=16))
+                        max_paths=32, feas_timeout=5, wall=600 if q else 2400, max_decisions=16))
     out.append(Case("wrapper:default-k:N=8:NW=1", case_wrapper, dict(N=8, NW=1, k=2, default_k=True), timeout=120 if q else 600,
                     max_paths=16, feas_timeout=5, wall=600 if q else 2400, max_decisions=16))
     return out
